@@ -115,7 +115,7 @@ def _block(draw, b, budget, depth, conditionals, force=None):
     """Adds a block to `b`; returns (entries, exits, used)."""
     kinds = ["job", "job", "chain", "fork", "dag"]
     if conditionals and budget >= 4 and depth < 2:
-        kinds += ["cond", "cond"] if conditionals == "heavy" else ["cond"]
+        kinds += ["cond", "cond"] if conditionals in ("heavy", "side") else ["cond"]
     if budget <= 1:
         kinds = ["job"]
     kind = force if force else draw(st.sampled_from(kinds))
@@ -232,6 +232,14 @@ def _block(draw, b, budget, depth, conditionals, force=None):
     term = b.node(terminal=True)
     for x in exits:
         b.edge(x, term)
+    if conditionals == "side" and budget - used >= 1 and draw(st.integers(0, 2)) == 0:
+        # the branch heads also wait for an ordinary task outside the region (released by the conditional, started only
+        # once that task has finished too)
+        side = b.node()
+        used += 1
+        for c in list(b.jobs[cond]["children"]):
+            b.edge(side, c)
+        return [cond, side], [term], used
     return [cond], [term], used
 
 
@@ -239,7 +247,7 @@ def _block(draw, b, budget, depth, conditionals, force=None):
 def job_graphs(draw, name, n_profiles, max_jobs=8, conditionals=True):
     b = _B()
     budget = draw(st.integers(1, max_jobs))
-    if conditionals == "heavy" and draw(st.integers(0, 4)) > 0:
+    if conditionals in ("heavy", "side") and draw(st.integers(0, 4)) > 0:
         if max_jobs >= 9 and draw(st.integers(0, 3)) == 0:
             budget = max(budget, 9)  # room for two conditional regions in sequence
         draw(_block(b, max(4, budget), 0, conditionals, force="condchain"))
